@@ -825,6 +825,15 @@ func init() {
 
 			return 600
 		},
-		Run: runC13,
+		Run: func(t *testing.T, rng *rand.Rand, rec *sim.Rec, tier string, caseNo int) {
+			if caseNo%30 == 17 {
+				// the same socket against the real server, over UDP and over a TCP control
+				// connection: bursts both ways, Data indications from an unbound port
+				runC05E2E(t, rng, rec, tier, caseNo/30)
+
+				return
+			}
+			runC13(t, rng, rec, tier, caseNo)
+		},
 	})
 }
